@@ -287,6 +287,25 @@ def run_op(d, op, by, n, groups, cells, rec):
             finally:
                 d._group_colnames = ()
         return None
+    if op == "count-then-modify":
+        # group_by marks the frame; count() and split() called on the marked frame leave the mark alone, so a
+        # modify / aggregate that follows is still group-wise (same partition)
+        g = d.group_by(*by)
+        c = g.count(*by)
+        parts = g.split(*by)
+        out = g.modify(m=lambda x: x.nrow)
+        agg = g.aggregate(n=di.count())
+        ms = V.cells(out["m"])
+        of = {}
+        for gr in groups:
+            for i in gr[1]:
+                of[i] = len(gr[1])
+        if ms != [of[i] for i in range(n)]:
+            return f"after count() and split() on the grouped frame, modify is no longer group-wise: m={ms}, expected {[of[i] for i in range(n)]}"
+        if V.cells(agg["n"]) != [len(gr[1]) for gr in groups] or V.cells(c["n"]) != [len(gr[1]) for gr in groups]:
+            return f"after count() on the grouped frame: aggregate n={V.cells(agg['n'])}, count n={V.cells(c['n'])}, expected {[len(gr[1]) for gr in groups]}"
+        rec.outcome(("count-then-modify", tuple(ms)))
+        return None
     if op == "aggregate-mutating":
         # an "arbitrary lambda" that overwrites the group it was handed: summaries listed after it are still
         # computed from the rows of the group, and the frame itself is untouched (checked by the caller)
@@ -378,7 +397,7 @@ def run_op(d, op, by, n, groups, cells, rec):
 
 
 def all_ops():
-    return ["aggregate-core", "count", "split", "modify", "aggregate-reentrant", "aggregate-mutating", "modify-mutating"] + [f"helper:{j}" for j in range(len(HELPERS))]
+    return ["aggregate-core", "count", "split", "modify", "aggregate-reentrant", "aggregate-mutating", "modify-mutating", "count-then-modify"] + [f"helper:{j}" for j in range(len(HELPERS))]
 
 
 def run_shard(shard, rec):
@@ -408,7 +427,7 @@ def run_shard(shard, rec):
         k1, k2 = shard["kinds"]
         a1, a2 = V.alphabet(k1, "key"), V.alphabet(k2, "key")
         n = shard["n"]
-        core = ["aggregate-core", "count", "split", "modify", "helper:5", "helper:11", "aggregate-reentrant", "aggregate-mutating", "modify-mutating"]
+        core = ["aggregate-core", "count", "split", "modify", "helper:5", "helper:11", "aggregate-reentrant", "aggregate-mutating", "modify-mutating", "count-then-modify"]
         lens = range(0, n + 1) if shard["first"] is None else [n]
         for m in lens:
             for t1 in itertools.product(a1, repeat=m):
